@@ -240,6 +240,7 @@ impl Property for C17S {
             }
             events.push(Event { trig: Trigger::Iter(k + 5 + rng.below(20)), act: Action::Lines(vec!["cmd:start".into()]) });
         }
+        one_line_per_poll(&mut events);
         Scn { guest, cfg: SysCfg { wait_start: false, clock: ClockModel::Fast, clock_seed: 0, step_cap: est * 5 + 100_000, print_msgs: false, print_opcode: false }, events }
     }
 
